@@ -159,21 +159,101 @@ def shortest_yields(prods):
     return best
 
 
+def table_diff_paths(cached, fresh, limit=8):
+    """Model-free search on a break: breadth-first walk over pairs of states of the two real
+    tables from (0, 0) along Shift and goto entries; yields (symbol path, next symbols to try,
+    reason) for the first pairs whose rows differ in any way `parse` can observe (missing
+    ACTION row, different action kind / target pairing / production / error code, different
+    default error, goto present on one side only)."""
+    lr1 = lr1dump.lr1mod()
+
+    def kind_of(a):
+        if isinstance(a, lr1.Shift):
+            return ("S",)
+        if isinstance(a, lr1.Reduce):
+            return ("R", a.rule)
+        if isinstance(a, lr1.Accept):
+            return ("A",)
+        return ("E", a.code)
+    out = []
+    pair = {0: 0}
+    queue = [(0, 0, ())]
+    qi = 0
+    while qi < len(queue) and len(out) < limit:
+        s, t, path = queue[qi]
+        qi += 1
+        ra, rb = cached.action.get(s), fresh.action.get(t)
+        if (ra is None) != (rb is None) and (ra or rb):
+            keys = sorted((ra or rb).keys(), key=str)
+            out.append((path, [None] + keys[:6], "state %d/%d: ACTION row present in one table only" % (s, t)))
+            continue
+        ra, rb = ra or {}, rb or {}
+        if cached.default_errors.get(s) != fresh.default_errors.get(t):
+            out.append((path, ["\0no-such-token"], "state %d/%d: default error codes differ" % (s, t)))
+            continue
+        bad = False
+        for a in sorted(set(ra) | set(rb), key=str):
+            x, y = ra.get(a), rb.get(a)
+            if x is None or y is None:
+                # absent entry = Error(default): observable unless the other side is that same error
+                e = x or y
+                d = (cached if x is None else fresh).default_errors.get(s if x is None else t)
+                if not (isinstance(e, lr1.Error) and e.code == d):
+                    out.append((path, [a], "state %d/%d: entry for %s in one table only" % (s, t, a)))
+                    bad = True
+                continue
+            if kind_of(x) != kind_of(y):
+                out.append((path, [a], "state %d/%d on %s: %s vs %s" % (s, t, a, kind_of(x)[0], kind_of(y)[0])))
+                bad = True
+            elif isinstance(x, lr1.Shift):
+                if x.state in pair:
+                    if pair[x.state] != y.state:
+                        out.append((path + (a,), [None], "state pairing is not a function at %d" % x.state))
+                        bad = True
+                else:
+                    pair[x.state] = y.state
+                    queue.append((x.state, y.state, path + (a,)))
+        ga, gb = cached.goto.get(s, {}), fresh.goto.get(t, {})
+        for x in sorted(set(ga) | set(gb), key=str):
+            if (x in ga) != (x in gb):
+                out.append((path, [x], "state %d/%d: goto on %s in one table only" % (s, t, x)))
+                bad = True
+            elif ga[x] in pair:
+                if pair[ga[x]] != gb[x]:
+                    out.append((path + (x,), [None], "state pairing is not a function at %d" % ga[x]))
+                    bad = True
+            else:
+                pair[ga[x]] = gb[x]
+                queue.append((ga[x], gb[x], path + (x,)))
+        if bad:
+            continue
+    return out
+
+
 def distinguish(chk, kind, cached, fresh, path_syms, user_prods, why, r):
     """Turn the symbol path to the first differing state pair into a token list and replay it
-    on both real parsers; fall back to a mutation search."""
+    on both real parsers; then the access paths found by a direct walk over the two real tables;
+    fall back to a mutation search."""
     pt = lr1dump.ptypes()
     best = shortest_yields(user_prods)
-    toks = []
-    for x in path_syms:
-        toks += best.get(x, [x])
-    cands = [toks, toks[:-1]]
+
+    def expand(syms):
+        toks = []
+        for x in syms:
+            if x is not None:
+                toks += best.get(x, [x])
+        return toks
+    toks = expand(path_syms or [])
+    cands = [toks, toks[:-1]] if path_syms is not None else []
+    for path, nexts, reason in table_diff_paths(cached, fresh):
+        for nx in nexts:
+            cands.append(expand(list(path) + [nx]))
     streams, muts = token_streams("thorough", kind, r)
     cands += [[t.symbol for t in s] for s in streams + muts]
     for c in cands:
         tl = [pt.Token(s, s, None) for s in c if s != lr1dump.lr1mod().END_OF_INPUT]
-        a = lr1dump.real_parse(cached, list(tl), lambda x: 0, lambda x: 0)
-        b = lr1dump.real_parse(fresh, list(tl), lambda x: 0, lambda x: 0)
+        a = lr1dump.real_parse(cached, list(tl), lambda x: 0, lambda x: 0, limit=60)
+        b = lr1dump.real_parse(fresh, list(tl), lambda x: 0, lambda x: 0, limit=60)
         ka, kb = result_key(a[1], a[2]), result_key(b[1], b[2])
         if ka != kb:
             chk.violation("input", {
@@ -222,21 +302,57 @@ def check_kind(chk, tier, kind, stats, model_ok, lines, checks):
     aut_f, _ = lr1dump.dump_automaton(fresh, fslot, False, sym, code)
     aut_c, _ = lr1dump.dump_automaton(cached, cslot, True, sym, code)
     path = os.path.join(common.scratch(), "c09-%s.ops" % kind)
+    extra_ops, mark_line = [], None
+    if kind == "module":
+        # ---- Parser.mark_error: (1) spec on the real code: every example of error_examples fails
+        # in the fresh parser at its marked token with its own message; (2) the Lean model of the
+        # mark_error loop applied to the *unmarked* tables must give the fresh (marked) tables
+        from compiler.util import resources
+        exs = make_parser.parse_error_examples(resources.load("compiler.front_end", "error_examples"))
+        stats["error_examples"] = len(exs)
+        enc = []
+        for k, (etoks, etok, message, text) in enumerate(exs):
+            res = fresh.parse(list(etoks))
+            ok = (res.error is not None and res.error.code == message and
+                  (res.error.token == etok if etok is not None else res.error.token.symbol == lr1.END_OF_INPUT))
+            chk.count()
+            if not ok:
+                chk.violation("input", {
+                    "input": " ".join(str(t.symbol) for t in etoks), "which": kind,
+                    "observed": "fresh parser on error example %d: %r" % (k, result_key(res, None)[:3]),
+                    "expected": "error at the marked token with message %r" % message})
+            if etok is None:
+                where = "E"
+            else:
+                j = [i for i, t in enumerate(etoks) if t is etok][0]
+                where = ("A%d" if etok is lr1.ANY_TOKEN else "T%d") % j
+            enc.append("%s|%s|%d" % (lr1dump.fld(",".join(str(sym(t.symbol)) for t in etoks)), where, code(message)))
+        unmarked = lr1.Grammar(start, list(user)).parser()
+        aut_u, _ = lr1dump.dump_automaton(unmarked, "unmarked_" + kind, False, sym, code)
+        extra_ops = [aut_u]
+        mark_line = "MARKALL unmarked_%s marked_%s %d %s" % (
+            kind, kind, 60 * max(len(e[0]) for e in exs) + 1000, lr1dump.fld(";".join(enc)))
     with open(path, "w") as f:
-        f.write("\n".join([aut_f, aut_c, lr1dump.gram_line(start, user, sym),
+        f.write("\n".join(extra_ops + [aut_f, aut_c, lr1dump.gram_line(start, user, sym),
                            lr1dump.cert_line(fresh, all_prods, sym),
                            "RULES ir " + lr1dump.rules_text(user, sym),
                            "RULES doc " + lr1dump.rules_text(doc, sym),
                            "RULES %s %s" % (cslot, lr1dump.rules_text(cached_user, sym))]) + "\n")
     base = len(lines)
     lines += ["LOADF " + path, "BISIM %s %s" % (cslot, fslot), "LRVALID " + fslot,
-              "SAMERULES ir doc", "SAMERULES ir " + cslot]
+              "SAMERULES ir doc", "SAMERULES ir " + cslot, "LRTERM " + cslot]
     checks.append((base + 1, "bisim", (kind, cached, fresh, user, sym, r)))
     checks.append((base + 2, "valid", kind))
     checks.append((base + 3, "samerules", ("module_ir.PRODUCTIONS", "doc/grammar.md", py_same, user, doc)))
     checks.append((base + 4, "samerules", ("module_ir.PRODUCTIONS", "cached_parser %s productions" % kind,
                                            py_same, user, cached_user)))
-    chk.count(4)
+    checks.append((base + 5, "term", kind))
+    chk.count(5)
+    if mark_line:
+        lines += [mark_line, "BISIM marked_%s %s" % (kind, fslot)]
+        checks.append((len(lines) - 2, "markall", (kind, len(enc))))
+        checks.append((len(lines) - 1, "markbisim", kind))
+        chk.count(2)
     # ---- correspondence on token streams: loaded parser vs cached model vs fresh real parser
     streams, muts = token_streams(tier, kind, r)
     for k, toks in enumerate(streams + muts):
@@ -246,8 +362,8 @@ def check_kind(chk, tier, kind, stats, model_ok, lines, checks):
             res_used, exc_used = parse(t1), None
         except Exception as e:
             res_used, exc_used = None, e
-        line_c, res_c, exc_c = lr1dump.real_parse(cached, t2, sym, code)
-        line_f, res_f, exc_f = lr1dump.real_parse(fresh, t3, sym, code)
+        line_c, res_c, exc_c = lr1dump.real_parse(cached, t2, sym, code, limit=60)
+        line_f, res_f, exc_f = lr1dump.real_parse(fresh, t3, sym, code, limit=60)
         w = [t.symbol for t in toks]
         chk.count()
         stats["streams_" + kind] = stats.get("streams_" + kind, 0) + 1
@@ -291,11 +407,16 @@ def search(chk):
                                     "expected": "a parser"}, key="build:" + kind)
             continue
         cached = load()
+        # first: a walk over the two tables for the shortest access path to a differing state
+        from compiler.front_end import module_ir
+        if distinguish(chk, kind, cached, fresh, None, sorted(module_ir.PRODUCTIONS),
+                       "direct comparison of the cached and the fresh tables", r):
+            continue
         streams, muts = token_streams("thorough", kind, r)
         for k, toks in enumerate(streams + muts):
             keep = k < len(streams)
-            a = lr1dump.real_parse(cached, fresh_tokens(toks, keep), lambda x: 0, lambda x: 0)
-            b = lr1dump.real_parse(fresh, fresh_tokens(toks, keep), lambda x: 0, lambda x: 0)
+            a = lr1dump.real_parse(cached, fresh_tokens(toks, keep), lambda x: 0, lambda x: 0, limit=60)
+            b = lr1dump.real_parse(fresh, fresh_tokens(toks, keep), lambda x: 0, lambda x: 0, limit=60)
             ka, kb = result_key(a[1], a[2]), result_key(b[1], b[2])
             if ka != kb:
                 chk.violation("input", {"input": " ".join(t.symbol for t in toks), "which": kind,
@@ -344,6 +465,29 @@ def run(tier):
                         "which": payload, "model": ans,
                         "theorem_or_correspondence": "LRVALID of the freshly generated Emboss tables (C08 validator)",
                         "expected": "valid"}, found_input=False)
+            elif what in ("markall", "markbisim"):
+                # model of mark_error (Model/Merr.lean, C09_mark_error_deterministic) vs the real loop
+                stats[what] = ans
+                good = (ans == "marked %d" % payload[1]) if what == "markall" else (
+                    ans.startswith("bisim ok") and ans.endswith("identity=true"))
+                if not good:
+                    dis += 1
+                    chk.violation("correspondence", {
+                        "which": "module", "model": ans,
+                        "theorem_or_correspondence": "MARKALL (Lean model of the mark_error loop over the unmarked "
+                                                     "tables) vs the tables of make_parser.build_module_parser(); every "
+                                                     "example fails in the real parser with its own message",
+                        "expected": "the model marks all examples and arrives at the real marked tables"},
+                        found_input=False)
+            elif what == "term":
+                # termination analysis of the *shipped* tables (C08_terminates applies to any table)
+                stats["terminates_" + payload] = ans
+                if ans != "terminates":
+                    dis += 1
+                    chk.violation("correspondence", {
+                        "which": payload, "model": ans,
+                        "theorem_or_correspondence": "LRTERM (TermOK, C08_terminates) of the cached tables",
+                        "expected": "terminates"}, found_input=False)
             elif what == "samerules":
                 a, b, py_same, la, lb = payload
                 stats["samerules:%s=%s" % (a, b)] = ans
